@@ -16,6 +16,7 @@ import (
 	"sort"
 	"strings"
 	"sync"
+	"sync/atomic"
 
 	"mellium.im/xmpp/crypto"
 	"mellium.im/xmpp/disco"
@@ -251,6 +252,12 @@ func direct(m model) disco.Info {
 			}
 			fs = append(fs, ctor(fd.Var, opts...))
 		}
+		if k%2 == 0 {
+			// the field values are applications' to keep: one form has been built
+			// from them before (what becomes of it does not matter)
+			_ = form.New(fs...)
+			formsFromReusedFields.Add(1)
+		}
 		v.Form = append(v.Form, *form.New(fs...))
 	}
 	return v
@@ -440,6 +447,13 @@ var (
 
 func pick(r *rand.Rand, l []string) string { return l[r.Intn(len(l))] }
 
+// longTokens counts the texts of 255 bytes and more that were generated.
+var longTokens atomic.Int64
+
+// formsFromReusedFields counts the forms built from form.Field values that had
+// been given to form.New before.
+var formsFromReusedFields atomic.Int64
+
 // printf verbs and other escape-ish metacharacters that must go into the
 // hashed string verbatim
 var spices = []string{"%", "%s", "%d", "%v", "%%", "%!", "%20", "100%", "%!s(MISSING)", "%x", "%+v", "%[1]s", "%*d", "%q", "\\", "\\n", "\t", "\n", "<", "&", "/", "'", "\"", ">", "%"}
@@ -448,6 +462,12 @@ var spices = []string{"%", "%s", "%d", "%v", "%%", "%!", "%20", "100%", "%!s(MIS
 // metacharacter sequence at a random position.
 func txt(r *rand.Rand, l []string) string {
 	s := pick(r, l)
+	if r.Intn(60) == 0 {
+		// a long token: around the sizes at which small buffers overflow, and far beyond
+		n := []int{255, 256, 257, 511, 512, 513, 600, 1023, 1025, 4097, 70000}[r.Intn(11)]
+		s += strings.Repeat("L", n-len(s)%7)
+		longTokens.Add(1)
+	}
 	if r.Intn(4) == 0 {
 		rs := []rune(s)
 		i := r.Intn(len(rs) + 1)
@@ -801,6 +821,11 @@ func shapeOf(m model) string {
 }
 
 func run(c *core.Case) {
+	lt0, fr0 := longTokens.Load(), formsFromReusedFields.Load()
+	defer func() {
+		c.Count("texts_of_255_bytes_and_more", int(longTokens.Load()-lt0))
+		c.Count("forms_built_from_fields_given_to_form_New_before", int(formsFromReusedFields.Load()-fr0))
+	}()
 	r := c.Rand
 	thorough := c.Tier == "thorough"
 	if !referenceSelfTest() {
